@@ -170,6 +170,10 @@ def dh_mode(c, hash_name, kl, priv_len, pkl):
     conds = [len(enc_calls) == 2, len(dec_calls) == 3]
     if all(conds):
         ss = enc_calls[0]["key"]
+        # the octets fed to the KDF are the shared secret Z = y^e mod p as an unsigned big-endian number of exactly key_length octets (SP800-56A)
+        e_int = V.int_from_bytes(eph[0][2], "big") if c.symbolic else int.from_bytes(eph[0][2], "big")
+        z = w.algebra.pow(y, e_int, p)
+        conds.append(seq_eq(ss, z.to_bytes(kl, "big")))
         conds += [len(ss) == kl, _ck_ok(enc_calls[0], "sha256", ss), _kb_ok(enc_calls[1], hash_name, cap_out(cap, enc_calls[0]), PUBCTX, 32)]
         conds += [_kb_ok(dec_calls[0], hash_name, seed, "DH\0".encode("utf-16-le"), nbytes), len(dec_calls[1]["key"]) == kl, _ck_ok(dec_calls[1], "sha256", dec_calls[1]["key"]),
                   seq_eq(dec_calls[1]["key"], ss), _kb_ok(dec_calls[2], hash_name, cap_out(cap, dec_calls[1]), PUBCTX, 32)]
